@@ -186,6 +186,15 @@ def handle (j : Json) : Except String Json := do
     let len ← getNat j "len"
     let cl ← getBool j "ch_last"
     pure <| Json.mkObj [("axes", Json.arr ((scalingAxis cl sa len).map fun (n : Nat) => Json.num (n : Int)).toArray)]
+  | "scaling_axis_arg" =>
+    -- `_get_scaling_axis` on the axes as Python hands them over (negative axes are counted from the end)
+    let sa ← getAxisArg j "sa"
+    let len ← getNat j "len"
+    let cl ← getBool j "ch_last"
+    match axisOfArg len sa with
+    | .error e => pure (errJson e)
+    | .ok spec =>
+      pure <| Json.mkObj [("axes", Json.arr ((scalingAxis cl spec len).map fun (n : Nat) => Json.num (n : Int)).toArray)]
   | _ => throw s!"unknown op {op}"
 
 def main : IO Unit := lineLoop handle
